@@ -191,11 +191,20 @@ class Environment(object):
     def close(self):
         """Shutdown server"""
 
-        try:
-            self.conn
-        except AttributeError:
-            pass
-        else:
-            self.conn.send_bytes(dumps(('close', (), {})))
-            self.conn.close()
-            del self.conn
+        with self.prepare_lock:
+            # a server that is still being started belongs to the session that ends here
+            thread = self.prepare_thread
+            if thread:
+                thread.join()
+
+            conn = self.__dict__.pop('conn', None)
+
+        if conn is not None:
+            try:
+                with self.call_lock:
+                    conn.send_bytes(dumps(('close', (), {})))
+            except (IOError, OSError):
+                # the server is gone already: the session is over all the same
+                pass
+            finally:
+                conn.close()
